@@ -22,7 +22,8 @@ META = dict(
          "sequence of 1-3 requests over HEAD / GET / POST / DELETE on ONE keep-alive Patron against a real Valet (socket doubles), x Patron "
          "constructed with default method or HEAD x each request answered fixed-length, streamed or by HTTPError x requests issued one by one or "
          "queued at once; every response must match the app's output (no body for HEAD) when delivered AND still after all later responses, and "
-         "leave nothing in the receive buffer.  Path reuse: 2-3 GET/POST requests on one Patron where only the first (or the constructor) names "
+         "leave nothing in the receive buffer.  Environ independence: every sequence of 2-3 requests with different header sets on one connection; the "
+         "app reports its HTTP_*/CONTENT_* variables, which must equal those of the same request on a fresh connection.  Path reuse: 2-3 GET/POST requests on one Patron where only the first (or the constructor) names "
          "a path containing space / non-ASCII / ',' / '%' and the later ones omit it; the server must see the same path every time.",
     note="Pure product of small sets; arrival schedules only as two-piece fragmentation of the Responder's own output (C29 covers the general case); multipart form bodies, header values outside "
          "latin-1, duplicate header names and HTTPError raised after the head was sent are not exercised.  GET requests "
@@ -763,7 +764,137 @@ def work_path_reuse(arg):
     return part
 
 
+ENV_REQS = {      # name -> (method, path, headers, body)
+    "A": ("POST", "/envA?q=1", [("Content-Type", "text/plain"), ("X-Custom", "one")], b"hello"),
+    "B": ("GET", "/envB", [], None),
+    "C": ("PUT", "/envC", [("X-Other", "two")], b"xy"),
+    "D": ("DELETE", "/envD", [("Accept", "*/*"), ("X-Custom", "three")], None),
+}
+
+
+def env_app(environ, start):
+    """Reports what the application is shown: every HTTP_* / CONTENT_* variable and the request line variables."""
+    shown = sorted((k, v) for k, v in environ.items()
+                   if k.startswith("HTTP_") or k.startswith("CONTENT_") or
+                   k in ("REQUEST_METHOD", "PATH_INFO", "QUERY_STRING", "SERVER_PROTOCOL"))
+    body = json.dumps([shown, environ["wsgi.input"].read().decode("latin-1")]).encode("ascii")
+    start("200 OK", [("Content-Type", "application/json"), ("Content-Length", str(len(body)))])
+    return [body]
+
+
+def env_expected(name):
+    m, path, headers, body = ENV_REQS[name]
+    p, sep, q = path.partition("?")
+    e = {"REQUEST_METHOD": m, "PATH_INFO": p, "QUERY_STRING": q, "SERVER_PROTOCOL": "HTTP/1.1",
+         "HTTP_HOST": "127.0.0.1:8091", "HTTP_ACCEPT_ENCODING": "identity",
+         "CONTENT_TYPE": dict((k.lower(), v) for k, v in headers).get("content-type", ""),
+         "CONTENT_LENGTH": str(len(body or b""))}
+    if body:
+        e["HTTP_CONTENT_LENGTH"] = str(len(body))
+    for k, v in headers:
+        e["HTTP_" + k.upper().replace("-", "_")] = v
+    return sorted(e.items()), (body or b"").decode("latin-1")
+
+
+def env_run(names, queue):
+    """One Patron, one keep-alive connection to a real Valet: -> list of reported (environ items, body) or an error string."""
+    from mc import net
+    from ioflo.aio.http import clienting, serving
+    from ioflo.aid.odicting import odict
+    fn = net.FakeNet()
+    _FSM[0].net = fn
+    ck = net.clock()
+    valet = serving.Valet(app=env_app, ha=("", 8091), store=ck)
+    if not valet.open():
+        raise core.BrokenCheck("Valet.open failed on the fake net")
+    patron = clienting.Patron(hostname="127.0.0.1", port=8091, store=ck)
+    patron.open()
+
+    def issue(name):
+        m, path, headers, body = ENV_REQS[name]
+        # Patron.request is differential by design: anything omitted is taken from the previous request,
+        # so every request names its own headers and query args explicitly
+        patron.request(method=m, path=path, qargs=odict(), headers=odict(headers), body=body)
+
+    out = []
+    if queue == "all-at-once":
+        for nme in names:
+            issue(nme)
+    for nme in names:
+        if queue == "one-by-one":
+            issue(nme)
+        rsp = None
+        for _ in range(10):
+            patron.serviceAll()
+            valet.serviceAll()
+            ck.advance(0.05)
+            if patron.responses:
+                rsp = patron.responses.popleft()
+                break
+        if rsp is None or rsp["errored"] or rsp["status"] != 200:
+            return "request %s: no usable response (%r)" % (nme, rsp and (rsp["status"], rsp["error"]))
+        try:
+            shown, body = json.loads(bytes(rsp["body"]).decode("ascii"))
+        except ValueError:
+            return "request %s: undecodable report %r" % (nme, bytes(rsp["body"])[:80])
+        out.append((sorted((k, v) for k, v in shown), body))
+    return out
+
+
+def work_environ(arg):
+    """The WSGI environ of a request must not depend on what was sent earlier on the connection."""
+    import itertools
+    core.use_repo()
+    from mc import net
+    if not _FSM:
+        _FSM.append(net.FakeSocketModule().install())
+    part = core.Part()
+    names = sorted(ENV_REQS)
+    fresh = {}
+    for nme in names:                       # each request as the first request of a fresh connection
+        got = env_run([nme], "one-by-one")
+        part.evaluations += 1
+        if isinstance(got, str):
+            raise core.BrokenCheck("environ baseline: " + got)
+        fresh[nme] = got[0]
+        if got[0] != env_expected(nme):
+            part.violation("environ|first-request", nme,
+                           "request %s %s as first request of a connection: the app is shown %r, the request says %r"
+                           % (ENV_REQS[nme][0], ENV_REQS[nme][1], got[0], env_expected(nme)),
+                           dict(direction="environ", requests=[nme], specs={k: list(map(str, v)) for k, v in ENV_REQS.items()}))
+    for n in (2, 3):
+        for seq in itertools.product(names, repeat=n):
+            for queue in ("one-by-one", "all-at-once"):
+                case = "%s requests queued %s" % (" ".join("%s(%s)" % (x, ENV_REQS[x][0]) for x in seq), queue)
+                got = env_run(list(seq), queue)
+                part.evaluations += 1
+                part.nontrivial("environ " + case)
+                replay = dict(direction="environ", requests=list(seq), queue=queue,
+                              specs={k: [v[0], v[1], v[2], v[3]] for k, v in ENV_REQS.items()},
+                              how="Valet(app).open(); one Patron; Patron.request(method, path, headers, body) per request; the app "
+                                  "returns its HTTP_*/CONTENT_*/request-line environ variables as JSON")
+                if isinstance(got, str):
+                    part.outcome("environ:broken-exchange")
+                    part.violation("environ|no-response", case, "requests %s: %s" % (case, got), replay)
+                    continue
+                ok = True
+                for i, nme in enumerate(seq):
+                    if got[i] != fresh[nme]:
+                        ok = False
+                        extra = sorted(set(map(tuple, got[i][0])) - set(map(tuple, fresh[nme][0])))
+                        missing = sorted(set(map(tuple, fresh[nme][0])) - set(map(tuple, got[i][0])))
+                        part.violation("environ|depends-on-earlier-requests", case,
+                                       "requests %s: request %d (%s %s) reaches the app with an environ that differs from the one the same "
+                                       "request gets on a fresh connection: unexpected %r, missing %r"
+                                       % (case, i + 1, ENV_REQS[nme][0], ENV_REQS[nme][1], extra, missing), replay)
+                part.outcome("environ:%d-requests:%s" % (n, "same-as-fresh" if ok else "differs"))
+    part.sample(dict(direction="environ", case=case, shown=got if isinstance(got, str) else got[-1]))
+    return part
+
+
 def work(item):
+    if item[0] == "environ":
+        return work_environ(item[1])
     if item[0] == "reuse":
         return work_path_reuse(item[1])
     if item[0] == "seq":
@@ -782,7 +913,7 @@ def run():
     items += [("rsp", ("errors",))]
     items += [("req", (m, p)) for m in METHODS for p in PATHS]
     items += [("pair", i) for i in range(len(PAIRKINDS))]
-    items += [("reuse", 0)]
+    items += [("reuse", 0), ("environ", 0)]
     items += [("seq", (c, q, f)) for c in (None, "HEAD") for q in ("one-by-one", "all-at-once") for f in SEQ_METHODS]
     ck.merge(core.pmap(work, items))
     ck.coverage_extra = dict(request_dimensions=dict(methods=len(METHODS), paths=len(PATHS), qarg_sets=len(qarg_sets()),
@@ -811,6 +942,10 @@ def run():
         "path reuse: a Patron.request() that omits the path reuses the path of the Patron's previous request (or of its constructor); the "
         "server-side PATH_INFO (reported by the app, quoted, in X-Path and in the body) must equal the client's path for every request; paths "
         "with a space, latin-1 and CJK characters, ',', '%20' and a bare '%'",
+        "environ independence: requests with different header sets (POST + body + Content-Type + X-Custom, bare GET, PUT + body + X-Other, DELETE "
+        "+ Accept + X-Custom) are sent in every order (2-3 per connection, with repetition) on one keep-alive Patron; the app reports its HTTP_* / "
+        "CONTENT_* / request-line variables; each must equal what the same request is shown as the first request of a fresh connection, which in "
+        "turn must equal exactly the headers that request carries (+ Host, Accept-Encoding, Content-Length)",
         "by HTTP rules a response to HEAD and any 1xx / 204 / 304 response has no body: the body the client must see for those is empty whatever "
         "the application yields, the application's headers (including a Content-Length on a HEAD response) must still arrive, and no byte of "
         "such a response may stay in the client's receive buffer",
